@@ -35,7 +35,7 @@ REQUIRED = ["KV.C04.header_roundtrip", "KV.C04.magic_distinct", "KV.C04.recogniz
             "KV.C04.unk_padding", "KV.C04.load_layout_eq_write_layout", "KV.C04.stored_params_read",
             "KV.C04.bhiksha_array_roundtrip", "KV.C04.bhiksha_dont_roundtrip", "KV.C04.chop_bits_bounds",
             "KV.C04.array_table_in_block", "KV.C04.quant_exact", "KV.C04.QuantExample.quant_lossy_when_count_exceeds_bins",
-            "KV.C04.roundtrip_semantic", "KV.C04.roundtrip_semantic_queries", "KV.C04.file_roundtrip_layout", "KV.C04.no_uint8_wrap", "KV.C04.sanity_model_eq_probe", "KV.C04.total_header_table", "KV.C04.fixed_layout"]
+            "KV.C04.roundtrip_semantic", "KV.C04.roundtrip_semantic_queries", "KV.C04.written_file_passes_size_check", "KV.C04.file_roundtrip_layout", "KV.C04.no_uint8_wrap", "KV.C04.sanity_model_eq_probe", "KV.C04.total_header_table", "KV.C04.fixed_layout"]
 
 REQUIRED_TRIE = ["KV.C03Trie.trie_refines", "KV.C03Trie.trie_prob", "KV.C03Trie.trie_refines_of_check",
                  "KV.C03Trie.quant_structural", "KV.C03Trie.table_structural", "KV.C03Trie.quant_structural_tries", "KV.C03Trie.ExamplePlain.represents", "KV.C03Trie.ExampleQuantArray.represents",
